@@ -7,7 +7,7 @@ small_programs(tier)     : smallest-bound slices fed to the differential checks.
 """
 import itertools
 
-CONSTRUCTS = ["if", "ifelse_then", "ifelse_else", "while", "for", "try", "catch", "lambda_call"]
+CONSTRUCTS = ["if", "ifelse_then", "ifelse_else", "while", "for", "try", "catch", "lambda_call", "catch2", "catch3"]
 TERMINALS = ["plain", "break", "continue", "return", "raise", "raise_native", "send_recv", "ternary"]
 PREFIXES = ["none", "ternary", "andor", "send", "if_break_loop", "call_args"]
 
@@ -57,6 +57,12 @@ def nest(chain, terminal, locals_per_level, in_loop=False, level=0, uid=[0]):
         s = "%stry {\n%s%s} catch e%d: Error {\n%s  acc = acc + 1000;\n%s}\n" % (ind, inner, ind, level, ind, ind)
     elif c == "catch":
         s = "%stry {\n%s  raise Error('c%d');\n%s} catch e%d: Error {\n%s%s}\n" % (ind, ind, level, ind, level, inner, ind)
+    elif c == "catch2":
+        # the inner construct sits in the second of two clauses (the first one does not match)
+        s = "%stry {\n%s  raise Error('c%d');\n%s} catch o%d: OtherErr {\n%s  acc = acc + 5000;\n%s} catch e%d: Error {\n%s%s}\n" % (ind, ind, level, ind, level, ind, ind, level, inner, ind)
+    elif c == "catch3":
+        s = ("%stry {\n%s  raise Error('c%d');\n%s} catch o%d: OtherErr {\n%s  acc = acc + 5000;\n%s} catch t%d: ThirdErr {\n%s  acc = acc + 7000;\n%s} catch e%d {\n%s%s}\n"
+             % (ind, ind, level, ind, level, ind, ind, level, ind, ind, level, inner, ind))
     elif c == "block":
         s = "%s{\n%s%s}\n" % (ind, inner, ind)
     elif c == "lambda_call":
@@ -84,7 +90,7 @@ def ctl_program(chain, terminal, nlocals, prefix, params):
     args = ", ".join(str(k + 1) for k in range(params))
     body = nest(list(chain), terminal, nlocals)
     epi = "".join("  acc = acc + p%d;\n" % k for k in range(params))
-    src = ("let ch = chan(8);\nfn f(%s) {\n  let acc = 0;\n%s%s%s  let tail = acc * 2;\n  return tail;\n}\n"
+    src = ("class OtherErr : Error {}\nclass ThirdErr : Error {}\nlet ch = chan(8);\nfn f(%s) {\n  let acc = 0;\n%s%s%s  let tail = acc * 2;\n  return tail;\n}\n"
            "try { print(f(%s)); } catch e: Error { print('uncaught', e.message); }\n"
            "try { print(f(%s)); } catch e: Error { print('uncaught', e.message); }\nprint('end');\n") % (ps, prefix_text(prefix), body, epi, args, args)
     return src
